@@ -80,7 +80,13 @@ func VerifC20_History() {
 	for c := 0; c < ncalc; c++ {
 		n := verif.Len("len", 0, maxLen)
 		content := verif.Bytes("content", n)
-		outcome := verif.Choice("outcome", 3) // 0 ok, 1 reader fails at byte k, 2 context cancelled at byte k
+		outcome := verif.Choice("outcome", 4) // 0 ok, 1 reader fails at byte k, 2 context cancelled at byte k, 3 through the string helper
+		if outcome == 3 {
+			digest := CalculateStringHash(h, string(content))
+			verif.Observe("digest", digest)
+			verif.Assert("digest_is_of_own_content", digest == hex.EncodeToString(content))
+			continue
+		}
 		r := &scriptReader{content: content, failAt: -1, cancAt: -1}
 		ctx := context.Background()
 		var cancel context.CancelFunc
